@@ -169,3 +169,40 @@ Definition secs_text (o : option (str * str)) : option str :=
   | Some (i, f) => Some (i ++ [46%N] ++ f)
   | None => None
   end.
+
+(* ---- gDay, gMonth, gMonthDay, gYear, gYearMonth -------------------------- *)
+Inductive period_sp :=
+| GDay (d : Z) (t : tz_sp)
+| GMonth (m : Z) (t : tz_sp)
+| GMonthDay (m d : Z) (t : tz_sp)
+| GYear (y : year_sp) (t : tz_sp)
+| GYearMonth (y : year_sp) (m : Z) (t : tz_sp).
+
+(* gMonthDay: the day must exist in that month of a leap year (--02-29 is valid) *)
+Definition wf_period (p : period_sp) : bool :=
+  match p with
+  | GDay d t => (1 <=? d) && (d <=? 31) && wf_tz t
+  | GMonth m t => (1 <=? m) && (m <=? 12) && wf_tz t
+  | GMonthDay m d t => real_date 2000 m d && wf_tz t
+  | GYear y t => wf_year y && wf_tz t
+  | GYearMonth y m t => wf_year y && (1 <=? m) && (m <=? 12) && wf_tz t
+  end.
+
+Definition lex_period (p : period_sp) : str :=
+  match p with
+  | GDay d t => [45;45;45]%N ++ d2 d ++ lex_tz t
+  | GMonth m t => [45;45]%N ++ d2 m ++ lex_tz t
+  | GMonthDay m d t => [45;45]%N ++ d2 m ++ [45%N] ++ d2 d ++ lex_tz t
+  | GYear y t => lex_year y ++ lex_tz t
+  | GYearMonth y m t => lex_year y ++ [45%N] ++ d2 m ++ lex_tz t
+  end.
+
+(* (year, month, day, offset) *)
+Definition val_period (p : period_sp) : option Z * option Z * option Z * option Z :=
+  match p with
+  | GDay d t => (None, None, Some d, val_tz t)
+  | GMonth m t => (None, Some m, None, val_tz t)
+  | GMonthDay m d t => (None, Some m, Some d, val_tz t)
+  | GYear y t => (Some (val_year y), None, None, val_tz t)
+  | GYearMonth y m t => (Some (val_year y), Some m, None, val_tz t)
+  end.
